@@ -170,7 +170,25 @@ let scene_cmd rules world scene0 =
 
 let ent_s (e : entity) = Printf.sprintf "%sv%s" (string_of_int (int_of_n e.e_index)) (string_of_int (int_of_n e.e_gen))
 
+let graph_cmd ops qs =
+  let ops = List.filter (fun o -> o <> "" && o <> "-") (String.split_on_char ';' ops) in
+  let ops = List.map (fun o -> match String.split_on_char ':' o with
+    | ["a"; k; s; t] -> OpAdd (n_of_hex k, n_of_hex s, n_of_hex t)
+    | ["r"; k; s; t] -> OpRemove (n_of_hex k, n_of_hex s, n_of_hex t)
+    | _ -> OpClear) ops in
+  let qs = List.map n_of_hex (String.split_on_char ',' qs) in
+  let (idx, count) = graph_run ops qs in
+  let seen = ref [] in
+  let labels = List.map (fun i -> match i with
+    | None -> "-"
+    | Some r -> let r = int_of_n r in
+      (match List.assoc_opt r !seen with
+       | Some p -> string_of_int p
+       | None -> let p = List.length !seen in seen := !seen @ [(r, p)]; string_of_int p)) idx in
+  Printf.sprintf "%s count=%d" (String.concat "," labels) (int_of_n count)
+
 let handle cmd args = match cmd, args with
+  | "graph", [ops; qs] -> graph_cmd ops qs
   | "cev_dec", ["CE0"; h] -> (match decode_ce0 (bytes_of_hex h) with Ok s -> "OK " ^ string_of_int (int_of_n s) | Err -> "ERR" | Panic -> "PANIC")
   | "cev_dec", ["CEM"; h] -> (match decode_cem (bytes_of_hex h) with
       | Ok (s, e) -> Printf.sprintf "OK %d %s" (int_of_n s) (ent_s e) | Err -> "ERR" | Panic -> "PANIC")
